@@ -57,6 +57,16 @@ def _filedata_histories(p, data, want):
     from ..core import scribble
 
     devs = []
+    # a decoded PDU (any header configuration) whose file data / metadata is then replaced through the documented setters
+    y = P.FileDataPdu.unpack(want)
+    new_data = data[: len(data) // 2] + b"\x99"
+    y.file_data = new_data
+    q1 = {**p, "data": new_data.hex()}
+    eq(devs, "hist.decoded_then_file_data_set.pack", bytes(y.pack()), M.ref_pdu(q1))
+    eq(devs, "hist.decoded_then_file_data_set.packet_len", y.packet_len, len(M.ref_pdu(q1)))
+    y.segment_metadata = SegmentMetadata(RecordContinuationState(3), b"\x01\x02\x03")
+    q2 = {**q1, "meta": {"state": 3, "data": "010203"}}
+    eq(devs, "hist.decoded_then_metadata_set.pack", bytes(y.pack()), M.ref_pdu(q2))
     c_data = bytearray(data)
     meta = None
     c_meta = None
